@@ -18,6 +18,7 @@ RTOL_EXT = 1e-6
 CLASSES = ["Cuboid", "Cylinder", "CylinderSegment", "Sphere", "Tetrahedron", "TetrahedronLeft", "TriangularMesh", "Triangle", "Circle",
            "Polyline", "Dipole"]
 POSE = ((0.3, -0.2, 0.5), (0.4, -0.3, 0.8))
+POSES = [POSE, ((-1.0, 2.0, 0.1), (0.0, 0.0, 2.2)), ((0.0, 0.0, 0.0), (0.0, 0.0, 0.0))]
 
 
 def params(cls, ri):
@@ -27,8 +28,10 @@ def params(cls, ri):
     return cls, C01.REGIMES[cls][ri]
 
 
-def nregimes(cls):
-    return 1 if cls == "TetrahedronLeft" else min(3, len(C01.REGIMES[cls]))
+def nregimes(cls, tier="quick"):
+    if cls == "TetrahedronLeft":
+        return 1
+    return len(C01.REGIMES[cls]) if tier == "thorough" else min(3, len(C01.REGIMES[cls]))
 
 
 def scaled_source(cls0, par, s, exc_mag, pose):
@@ -61,12 +64,21 @@ def run_case(c):
 
     cls, ri, ks, mags = c["cls"], c["regime"], c["ks"], c["mags"]
     cls0, par = params(cls, ri)
-    loc, ext = C01.cells(cls0, par if cls0 != "Dipole" else {}, "quick", 0)
+    locs, exts = [], []
+    for sd in c.get("seeds", [0]):
+        l_, e_ = C01.cells(cls0, par if cls0 != "Dipole" else {}, "quick", sd)
+        locs.append(l_)
+        exts.append(e_)
+    loc, ext = np.concatenate(locs), np.concatenate(exts)
+    _, first = np.unique(np.round(loc, 15), axis=0, return_index=True)
+    first = np.sort(first)
+    loc, ext = loc[first], ext[first]
     keep = ~C01.on_source(cls0, par, loc)
     loc, ext = loc[keep], ext[keep]
     if len(loc) > c.get("maxcells", 400):
         idx = np.linspace(0, len(loc) - 1, c.get("maxcells", 400)).astype(int)
         loc, ext = loc[idx], ext[idx]
+    POSE = POSES[c.get("pose", 0)]
     Rm = R.from_rotvec(POSE[1])
     obs1 = Rm.apply(loc) + np.array(POSE[0])
     fields = ["B", "H"] + (["J"] if cls0 in C01.MAGNETS else [])
@@ -160,7 +172,7 @@ def run_surface(c):
     pol = (0.2, -0.3, 0.9)
     out = {}
     problems = []
-    for e in (0,) + SURF_EXPONENTS:
+    for e in (0,) + tuple(c.get("exponents", SURF_EXPONENTS)):
         s = 2.0 ** e
         par2 = {}
         for k, v in par.items():
@@ -221,11 +233,14 @@ def run(tier, seed):
     ks = [-9, -6, -3, 3, 6, 9] if tier == "quick" else [k for k in range(-9, 10) if k != 0]
     cases = []
     for cls in CLASSES:
-        for ri in range(nregimes(cls) if tier == "thorough" else min(2, nregimes(cls))):
-            cases.append({"cls": cls, "regime": ri, "ks": ks, "mags": [1.0, 1e-12, 1e12], "maxcells": 150 if tier == "quick" else 400})
+        for ri in range(nregimes(cls, tier)):
+            for pose in ((0, 1, 2) if tier == "thorough" else (0, 1)):
+                cases.append({"cls": cls, "regime": ri, "ks": ks, "mags": [1.0, 1e-12, 1e12], "maxcells": 300 if tier == "quick" else 100000,
+                              "pose": pose, "seeds": [0, 1] if tier == "quick" else [0, 1, 2, 3]})
     from mc.props import C02
 
-    scases = [{"part": "surface", "cls": cls, "regime": ri} for cls in C02.MAGNETS for ri in range(len(C02.REGIMES[cls]))]
+    exps = list(SURF_EXPONENTS) if tier == "quick" else [e for e in range(-30, 31, 3) if e != 0]
+    scases = [{"part": "surface", "cls": cls, "regime": ri, "exponents": exps} for cls in C02.MAGNETS for ri in range(len(C02.REGIMES[cls]))]
     res = common.pmap(work, cases + scases, chunk=1)
     viols, harness = [], []
     n = 0
@@ -251,7 +266,8 @@ def run(tier, seed):
             cell = parts[1] if len(parts) > 1 else "-"
             viols.append({"key": f"C12|{c['cls']}|{decade_bucket(k)}|{cell}|{k0}",
                           "what": f"{c['cls']} regime {c['regime']} scale 1e{k}: {kind}: {detail}",
-                          "case": {"cls": c["cls"], "regime": c["regime"], "ks": [k], "mags": c["mags"], "maxcells": c["maxcells"]},
+                          "case": {"cls": c["cls"], "regime": c["regime"], "ks": [k], "mags": c["mags"], "maxcells": c["maxcells"],
+                                   "pose": c.get("pose", 0), "seeds": c.get("seeds", [0])},
                           "observed": [k, kind, detail]})
     cov = {
         "evaluations": n * 5, "distinct_nontrivial": n,
